@@ -97,7 +97,7 @@ PROPS['C19'] = dict(
 
 PROPS['C20'] = dict(
     level='other',
-    claim='raptor DefaultWorker._alloc/_dealloc verified for every occupancy vector and request size (count-based loop invariants, no bound): a grant names exactly the requested number of distinct free cells and marks only those; release is the inverse (round-trip lemma); grants are disjoint from cells held by other requests (lemma). DefaultWorker._request_cb: every request of a bulk is either started - only after a grant, which it keeps - or answered without a process, its grant given back and the error attached: exactly one (allocation waits modelled with an arbitrary environment step on the occupancy); DefaultWorker._result_cb: the grant is given back once, the request answered once with what the call produced, its process entry removed and no other. Master._result_cb: every returned request is handed on once with target state DONE iff it reported exit code 0, FAILED otherwise; Master._submit_tasks: every request of a bulk goes exactly one way, executable requests to the pilot's execution path and every other mode to the workers. The per-mode dispatchers (function, eval, exec, process, shell: return value, captured output, exit code, exception record, environment and output streams restored) and whole request / completion histories are decided by bounded native runs of the real code (labelled bounded)',
+    claim='raptor DefaultWorker._alloc/_dealloc verified for every occupancy vector and request size (count-based loop invariants, no bound): a grant names exactly the requested number of distinct free cells and marks only those; release is the inverse (round-trip lemma); grants are disjoint from cells held by other requests (lemma). DefaultWorker._request_cb: every request of a bulk is either started - only after a grant, which it keeps - or answered without a process, its grant given back and the error attached: exactly one (allocation waits modelled with an arbitrary environment step on the occupancy); DefaultWorker._result_cb: the grant is given back once, the request answered once with what the call produced, its process entry removed and no other. Master._result_cb: every returned request is handed on once with target state DONE iff it reported exit code 0, FAILED otherwise; Master._submit_tasks: every request of a bulk goes exactly one way, executable requests to the execution path of the pilot and every other mode to the workers. The per-mode dispatchers (function, eval, exec, process, shell: return value, captured output, exit code, exception record, environment and output streams restored) and whole request / completion histories are decided by bounded native runs of the real code (labelled bounded)',
     note='mp.Process / proc.start by assumed contract (a process is started or an exception is raised, nothing in between); the scheduler-side raptor forwarding is not under contract; the two-process time-out of _dispatch is outside this family; exec / eval / StringIO redirection are outside the verified subset, so the dispatchers are bounded only; demands beyond the worker size are outside the property (the except path of _request_cb would then fail in _dealloc: noted, not a finding)',
     assumptions=['A2', 'A4', 'A5', 'A7', 'A11'],
     trusted_base=['multiprocessing.Process: start() starts the child or raises (assumed)', 'ru.zmq.Putter.put delivers the answer (message transport)'],
